@@ -139,7 +139,7 @@ func fmtTime(v interface{}) string {
 
 func c10Boundaries() []time.Time {
 	var out []time.Time
-	sec := []int64{0, 1 << 31, -(1 << 31), 1<<31 - 1, 1<<32, -(1 << 32), 60, 3600, 86400}
+	sec := []int64{0, 1 << 31, -(1 << 31), 1<<31 - 1, 1 << 32, -(1 << 32), 60, 3600, 86400}
 	for _, y := range []int{1, 2, 1677, 1678, 1969, 1970, 1971, 2038, 2039, 2262, 2263, 9999} {
 		sec = append(sec, time.Date(y, 1, 1, 0, 0, 0, 0, time.UTC).Unix(), time.Date(y, 12, 31, 23, 59, 59, 0, time.UTC).Unix())
 	}
